@@ -118,7 +118,7 @@ CHECKS.update({
              "parse (toText f) = f; unescape inverts escapeValue for every octet string; what escapeValue writes is printable ASCII without ( ) * \\ "
              "plus \\hh escapes (byte class regenerated from the library's escape pattern), and toText is pure printable ASCII — no value content "
              "can change the shape of a filter."
-             " Added (Props/C13More): toText_is_sentence_iff — the text form is an RFC 4515 sentence (independent grammar relation) exactly on the domain WFText ∧ RFC attributes/oids ∧ every extensible match has an attribute or a rule; raw UTF-8 is NOT required to be escaped by the harness oracle (independent recogniser of the grammar). SECOND TIE (translator): the recursive-descent parser behind LDAPFilter.from_string (_unpack_filter, _unpack_complex_filter, _unpack_simple_filter, _unpack_filter_extensible_header, _unpack_filter_substrings_value, from_string) is translated statement by statement from the Python AST into Lean on every run (harness/py2lean.py -> Generated/FilterGen.lean) and Props/TiesFilter.lean proves generated = hand model (same tree, consumed count, error offset and length; all inputs, all sufficient fuel); trusted boundary: the attribute pattern (= validAttr by Props/Ties.lean), the re.sub-based value unescape, strip / encode. Not in force => NOTE line, search at up to 4x the quick scale; the property stays decided by the theorems + the correspondence tie.",
+             " Added (Props/C13More): toText_is_sentence_iff — the text form is an RFC 4515 sentence (independent grammar relation) exactly on the domain WFText ∧ RFC attributes/oids ∧ every extensible match has an attribute or a rule; raw UTF-8 is NOT required to be escaped by the harness oracle (independent recogniser of the grammar). SECOND TIE (translator): the recursive-descent parser behind LDAPFilter.from_string (_unpack_filter, _unpack_complex_filter, _unpack_simple_filter, _unpack_filter_extensible_header, _unpack_filter_substrings_value, from_string) is translated statement by statement from the Python AST into Lean on every run (harness/py2lean.py -> Generated/FilterGen.lean) together with the PRINTER (__str__ of the ten filter classes, _serialize_filter_value), and Props/TiesFilter.lean + TiesFilterStr.lean prove generated = hand model (same tree, consumed count, error offset and length; all inputs, all sufficient fuel); trusted boundary: the attribute pattern (= validAttr by Props/Ties.lean), the re.sub-based value unescape, strip / encode. Not in force => NOTE line, search at up to 4x the quick scale; the property stays decided by the theorems + the correspondence tie.",
         technique="Lean 4 proof (mutual structural induction on filters; scanner lemmas) + correspondence + Python-AST-to-Lean translator with equality theorems (generated = model) as a second tie",
         ref="DESIGN.md §4 C13",
     ),
@@ -127,7 +127,7 @@ CHECKS.update({
              "with offset+length inside the UTF-8 of the stripped input; scan loops never exhaust their fuel and RecursionError never escapes; "
              "whatever is accepted has pattern-valid attributes/rules, lies in the text domain of C13 and therefore re-parses from its own text. "
              "Known finding F-C15d (single-arc numeric OIDs accepted; pinned by the repo's tests)."
-             " Added (Props/C13More): validAttr_iff (the pattern accepts exactly RFC attribute descriptions plus F-C15d), accepted_rule_char (accepted matching rules deviate from oid exactly by F-C15r — options, pinned by the repo's tests — and F-C15d), and an integer-valued shadow of the parser proving no reported offset/length is ever negative. SECOND TIE (translator): the recursive-descent parser behind LDAPFilter.from_string (_unpack_filter, _unpack_complex_filter, _unpack_simple_filter, _unpack_filter_extensible_header, _unpack_filter_substrings_value, from_string) is translated statement by statement from the Python AST into Lean on every run (harness/py2lean.py -> Generated/FilterGen.lean) and Props/TiesFilter.lean proves generated = hand model (same tree, consumed count, error offset and length; all inputs, all sufficient fuel); trusted boundary: the attribute pattern (= validAttr by Props/Ties.lean), the re.sub-based value unescape, strip / encode. Not in force => NOTE line, search at up to 4x the quick scale; the property stays decided by the theorems + the correspondence tie.",
+             " Added (Props/C13More): validAttr_iff (the pattern accepts exactly RFC attribute descriptions plus F-C15d), accepted_rule_char (accepted matching rules deviate from oid exactly by F-C15r — options, pinned by the repo's tests — and F-C15d), and an integer-valued shadow of the parser proving no reported offset/length is ever negative. SECOND TIE (translator): the recursive-descent parser behind LDAPFilter.from_string (_unpack_filter, _unpack_complex_filter, _unpack_simple_filter, _unpack_filter_extensible_header, _unpack_filter_substrings_value, from_string) is translated statement by statement from the Python AST into Lean on every run (harness/py2lean.py -> Generated/FilterGen.lean) together with the PRINTER (__str__ of the ten filter classes, _serialize_filter_value), and Props/TiesFilter.lean + TiesFilterStr.lean prove generated = hand model (same tree, consumed count, error offset and length; all inputs, all sufficient fuel); trusted boundary: the attribute pattern (= validAttr by Props/Ties.lean), the re.sub-based value unescape, strip / encode. Not in force => NOTE line, search at up to 4x the quick scale; the property stays decided by the theorems + the correspondence tie.",
         technique="Lean 4 proof (span/progress invariants by induction on depth and fuel) + correspondence on mutated and random text + Python-AST-to-Lean translator with equality theorems (generated = model) as a second tie",
         ref="DESIGN.md §4 C15",
     ),
@@ -139,7 +139,7 @@ CHECKS.update({
              "escapes in either hex case, raw octets, empty values, options, OIDs, dn in any case, the documented tolerated spaces); for every "
              "derivation the parser returns exactly the denoted tree (any Unicode white space around the sentence is stripped first); the denoted "
              "tree is a well-formed message component and the SearchRequest carrying it encodes to bytes that the strict RFC 4511 decoder reads "
-             "back (by C03). SECOND TIE (translator): the recursive-descent parser behind LDAPFilter.from_string (_unpack_filter, _unpack_complex_filter, _unpack_simple_filter, _unpack_filter_extensible_header, _unpack_filter_substrings_value, from_string) is translated statement by statement from the Python AST into Lean on every run (harness/py2lean.py -> Generated/FilterGen.lean) and Props/TiesFilter.lean proves generated = hand model (same tree, consumed count, error offset and length; all inputs, all sufficient fuel); trusted boundary: the attribute pattern (= validAttr by Props/Ties.lean), the re.sub-based value unescape, strip / encode. Not in force => NOTE line, search at up to 4x the quick scale; the property stays decided by the theorems + the correspondence tie.",
+             "back (by C03). SECOND TIE (translator): the recursive-descent parser behind LDAPFilter.from_string (_unpack_filter, _unpack_complex_filter, _unpack_simple_filter, _unpack_filter_extensible_header, _unpack_filter_substrings_value, from_string) is translated statement by statement from the Python AST into Lean on every run (harness/py2lean.py -> Generated/FilterGen.lean) together with the PRINTER (__str__ of the ten filter classes, _serialize_filter_value), and Props/TiesFilter.lean + TiesFilterStr.lean prove generated = hand model (same tree, consumed count, error offset and length; all inputs, all sufficient fuel); trusted boundary: the attribute pattern (= validAttr by Props/Ties.lean), the re.sub-based value unescape, strip / encode. Not in force => NOTE line, search at up to 4x the quick scale; the property stays decided by the theorems + the correspondence tie.",
         technique="Lean 4 proof (induction on grammar derivations) + correspondence + generated-sentence search + Python-AST-to-Lean translator with equality theorems (generated = model) as a second tie",
         ref="DESIGN.md §4 C14",
     ),
